@@ -63,7 +63,7 @@ def _tokenizer(c: Check, prog: Program) -> None:
     for n in (0, 1, 2):
         c11.run_tokenize(c, prog, n, U, f"U{n}")
     for n in (3, 4):
-        c11.run_tokenize(c, prog, n, frozenset("sgnSGNx7.+ #"), f"S{n}")
+        c11.run_tokenize(c, prog, n, frozenset(c11.SMALL_ALPHABET), f"S{n}")
 
 
 def _parser(c: Check, prog: Program) -> None:
@@ -72,6 +72,8 @@ def _parser(c: Check, prog: Program) -> None:
     recs = analyse_parser(str(REPO), 5)
     c03.run_records(c, recs)
     c03.run_ladder(c, prog)
+    from .c05 import run_literal_text
+    run_literal_text(c, prog, "C03.R8")
 
 
 def _links(c: Check, prog: Program) -> None:
